@@ -10,7 +10,7 @@ def build(reg):
     specs = specs + mf
     hs = [reg.specs[k] for k in reg.specs if k[1] in ("hashsum", "qualified_hashsum", "hashsum_file")]
     return {
-        "verify": specs + hs + [x for x in ublock.add_ublock(reg) if x.qual.endswith(".create")],  # what a new block looks like is what _check_ublock accepts as the next patch
+        "verify": specs + hs + [x for x in ublock.add_ublock(reg) if x.qual.endswith((".create", ".load"))],  # what a new block looks like is what _check_ublock accepts as the next patch
         "lemmas": [],
         "trusted": hashing.TRUSTED + ublock.T_UB[:2] + [record.T1_OPEN, record.T5_UB, "T5 pydantic: field access on IH5UserBlock returns the parsed field; UUID equality = equality of canonical text", "T4 list.sort(key) yields a permutation ascending in the key; |{f(x)}| = |xs| iff f injective on xs"],
         "assumptions": ["IH5MFRecord._open: IH5Record._open is represented by its own contract (verified above) through a stub that either refuses with ValueError or returns a record with at least one container satisfying RecInv", "IH5Record.__new__ (3 lines) and the IH5Node initialiser called via super().__init__ are taken as: fresh object with _allow_patching=True, __files__=[]; node fields only"],
